@@ -85,8 +85,10 @@ impl Engine for XferEngine {
         let dup = if !fault_free && c.chance(1, 2) { c.range(20, 300) } else { 0 };
         let reorder = if !fault_free && c.chance(3, 4) { c.range(100, 1000) } else { 0 };
         let interleave = !fault_free && c.chance(1, 2);
-        let first_tick = match c.below(5) {
+        let first_tick = match c.below(6) {
             0 => 0,
+            // the first transfer of a fresh receiver is for tick 0 or a negative tick (ticks are arbitrary i32 values)
+            5 => *c.pick(&[0i32, 0, -1, -2, -1000, i32::MIN + 10, i32::MIN + 5000, -50_000_000]),
             1 => c.range(1, 100) as i32,
             2 => c.range(100_000, 50_000_000) as i32,
             3 => i32::MAX - if c.chance(1, 2) { c.range(0, 20) as i32 } else { c.range(0, 40_000) as i32 },
@@ -114,8 +116,8 @@ impl Engine for XferEngine {
                 0 | 1 => -1,
                 2 => -(s.range(2, 1000) as i32),
                 3 => (tick - 1) as i32,
-                4 => s.range(0, tick as u64 - 1) as i32,
-                _ => (tick - s.range(1, 100).min(tick as u64) as i64) as i32,
+                4 => s.range(0, tick.max(2) as u64 - 1) as i32,
+                _ => (tick - s.range(1, 100).min(tick.max(1) as u64) as i64) as i32,
             };
             let len = match len_profile {
                 0 => *s.pick(&[0u32, 1, 899, 900, 901, 1799, 1800, 1801, 2700, 2701, 28799, 28800]),
@@ -183,9 +185,13 @@ impl Engine for XferEngine {
                         continue;
                     }
                     // the last representable tick is reached exactly (not jumped over)
-                    tick = (tick + inc.max(1) as i64).min(i32::MAX as i64);
+                    // (a non-positive first tick is itself the tick of the first transfer)
+                    if !(transfers.is_empty() && tick <= 0 && tick == case.cfg.first_tick as i64) {
+                        tick = (tick + inc.max(1) as i64).min(i32::MAX as i64);
+                    }
                     let t = tick as i32;
-                    let base = if base >= t { t - 1 } else { base.max(-100_000) };
+                    let base = base.max(-100_000);
+                    let base = if base >= t { t - 1 } else { base };
                     // the wire field is tick - base: keep it representable
                     let base = (base as i64).max(tick - i32::MAX as i64) as i32;
                     let mut r = Prng::new(mix(case.cfg.seed, salt as u64, transfers.len() as u64));
